@@ -42,7 +42,13 @@ def observe(c):
     du = U.Units(sysgen.py_sys(U, c["dunits"]), U.UnitsDimensions(quantity=1))
     tu = U.Units(sysgen.py_sys(U, c["tunits"]), U.UnitsDimensions(time=1))
     src, tsrc = U.UnitArray(list(c["data"]), du), U.UnitArray(list(c["ts"]), tu)
-    tr = strengths.RDTrajectory(data=src, t_sample=tsrc, system=system)
+    if c.get("foreign_script"):
+        # the trajectory of a coarse-grained run: its script describes another system (here: one cell more, a species less or more)
+        # than the one the data are laid out on
+        other = sysgen.build_system(strengths, _desc(S % 3 + 1, C + 1, c["desc"]["space"]["type"], random.Random(C)))
+        tr = strengths.RDTrajectory(data=src, t_sample=tsrc, system=system, script=strengths.RDScript(system=other, t_sample=[0.0]))
+    else:
+        tr = strengths.RDTrajectory(data=src, t_sample=tsrc, system=system)
     if c.get("scribble"):
         # the caller reuses its buffers after handing them over: whatever the trajectory then holds, every accessor must still
         # agree with direct indexing of its data (read back below and used as the reference array)
@@ -226,7 +232,7 @@ def gen_cases(rng, tier):
             tunits = ["µm", rng.choice(si.TIME), "molecule"]
             cases.append({"N": N, "S": S, "C": C, "desc": _desc(S, C, kind, rng), "data": data, "dunits": sysgen.rand_sys(rng),
                           "ts": ts, "tunits": tunits, "queries": rand_queries(rng, ts, tunits, strict), "strict": strict,
-                          "scribble": rng.random() < 0.4})
+                          "scribble": rng.random() < 0.4, "foreign_script": rng.random() < 0.35})
     # grids with more than 255 cells and both strides above one (narrow coordinate types, fractional coordinates)
     for (w, h, d) in ((16, 17, 1), (7, 6, 7)):
         N, S, C = rng.randint(1, 2), rng.randint(1, 2), w * h * d
